@@ -132,20 +132,22 @@ Proof.
                       match rf with
                       | RF_none => (None, names0 fr cf)
                       | RF_arr b => (Some b, names0 fr cf)
-                      | RF_field n b => (Some b, if mem_name n (names0 fr cf) then remove_first n (names0 fr cf) else names0 fr cf)
+                      | RF_field own n b => (Some b, if own && mem_name n (names0 fr cf) then remove_first n (names0 fr cf) else names0 fr cf)
                       end in (flt', names)) = (flt, spec_names fr rf cf)).
-  { unfold flt, spec_names. fold (names0 fr cf). destruct rf as [|b|n b]; cbn; try reflexivity.
+  { unfold flt, spec_names. fold (names0 fr cf). destruct rf as [|b|own n b]; cbn; try reflexivity.
+    destruct own; cbn [andb]; [|reflexivity].
     destruct (mem_name n (names0 fr cf)) eqn:M; [reflexivity|].
     rewrite mem_name_false_remove by assumption. reflexivity. }
   destruct (match rf with
             | RF_none => (None, names0 fr cf)
             | RF_arr b => (Some b, names0 fr cf)
-            | RF_field n b => (Some b, if mem_name n (names0 fr cf) then remove_first n (names0 fr cf) else names0 fr cf)
+            | RF_field own n b => (Some b, if own && mem_name n (names0 fr cf) then remove_first n (names0 fr cf) else names0 fr cf)
             end) as [flt' names] eqn:Erf.
   cbn in Hnames. injection Hnames as -> ->.
   assert (Hhas' : forallb (has fr) (spec_names fr rf cf) = true).
   { apply (forallb_incl _ _ (names0 fr cf)); [|exact Hhas].
-    unfold spec_names. fold (names0 fr cf). destruct rf; auto. intros x. apply remove_first_incl. }
+    unfold spec_names. fold (names0 fr cf). destruct rf as [|b|own n b]; auto. destruct own; auto.
+    intros x. apply remove_first_incl. }
   rewrite map_opt_lookup by assumption.
   rewrite write_row_names.
   pose proof (csv_loop_ok V_fix (map (column fr) (spec_names fr rf cf)) flt chunk Hc fuel O
